@@ -42,7 +42,7 @@ RULE = ("complete product 6 signer keys x 3 claimed issuers x 4 KeyInfo shapes x
         "LogoutRequest/SOAP, AuthnRequest/Redirect detached) = 864 cells, every cell run against the real code; "
         "plus the default-configuration column (option not set), corrupted signatures, absent/padded issuer, "
         "multi-certificate KeyInfo and random metadata shapes (several roles, use absent/signing/encryption, "
-        "several certificates, descriptors without X509Data, no metadata configured); "
+        "several certificates, key descriptors without X509Data / X509Data without certificate, no metadata configured); "
         "non-trivial = a verifier was actually handed a certificate or the case was accepted; "
         "distinct = distinct case JSON")
 TRUSTED = [
@@ -175,10 +175,12 @@ ROLE_TAG = {
 
 def _keydescriptor(kd):
     use = ' use="%s"' % kd["use"] if kd.get("use") else ""
-    if kd.get("certs") is None:
+    if not kd.get("certs"):  # None or []: a KeyInfo without any X509Data
         inner = "<ds:KeyName>key-without-certificate</ds:KeyName>"
-    else:
+    else:  # a None entry: an X509Data that carries no certificate
         inner = "".join("<ds:X509Data><ds:X509Certificate>%s</ds:X509Certificate></ds:X509Data>" % S.cert_b64(c)
+                        if c is not None else
+                        "<ds:X509Data><ds:X509SubjectName>CN=no-certificate</ds:X509SubjectName></ds:X509Data>"
                         for c in kd["certs"])
     return "<md:KeyDescriptor%s><ds:KeyInfo>%s</ds:KeyInfo></md:KeyDescriptor>" % (use, inner)
 
@@ -245,7 +247,10 @@ def gen_role(rng, kinds):
         if rng.random() < 0.07:
             keys.append({"use": use, "certs": None})
         else:
-            keys.append({"use": use, "certs": [rng.choice(KEYS[:4] + ["idp2", "sp2"]) for _ in range(rng.choice([1, 1, 1, 2]))]})
+            cs = [rng.choice(KEYS[:4] + ["idp2", "sp2"]) for _ in range(rng.choice([1, 1, 1, 2]))]
+            if rng.random() < 0.06:
+                cs.insert(rng.randrange(len(cs) + 1), None)
+            keys.append({"use": use, "certs": cs})
     return {"kind": rng.choice(kinds), "keys": keys}
 
 
@@ -271,7 +276,7 @@ def random_cases(rng, n_md, per):
             md = {"configured": False, "entities": []}
         else:
             md = gen_md(rng, role)
-        published = sorted({c for e in md["entities"] for r in e["roles"] for k in r["keys"] for c in (k["certs"] or [])})
+        published = sorted({c for e in md["entities"] for r in e["roles"] for k in r["keys"] for c in (k["certs"] or []) if c})
         e_id, m_id, u_id = ids_for(kind)
         for _ in range(per):
             c = rng.randrange(10)
@@ -326,20 +331,24 @@ def gen_cases(rng, tier):
                 if iss is None and kind == "assertion":
                     continue
                 for signer in ("idp_sign", "attacker"):
-                    yield {"kind": kind, "md": md, "only_md": only, "issuer": iss, "signer": signer,
-                           "keyinfo": {"certs": [signer], "rsa": None}}
+                    for ki in ({"certs": [signer], "rsa": None}, {"certs": [], "rsa": None}, {"certs": ["member2", signer], "rsa": None}):
+                        yield {"kind": kind, "md": md, "only_md": only, "issuer": iss, "signer": signer, "keyinfo": ki}
             # no metadata configured at all
             for signer in ("idp_sign", "attacker"):
                 yield {"kind": kind, "md": {"configured": False, "entities": []}, "only_md": only, "issuer": e_id,
                        "signer": signer, "keyinfo": {"certs": [signer], "rsa": None}}
-    # 4. directed metadata shapes: a signing key descriptor without X509Data (MetaData.certs raises KeyError),
-    #    the same with use="encryption" (not looked at), an entity with an encryption key only, an entity
-    #    without any key, keys spread over two role descriptors of the entity
+    # 4. directed metadata shapes: a signing key descriptor without X509Data (contributes no certificate; the
+    #    input class of the repaired defect C03/keyless-keydescriptor-fallback), an X509Data without
+    #    certificate, a certificate-less descriptor only, a certificate-less descriptor in another role or with
+    #    use="encryption", an entity with an encryption key only, an entity without any key, keys spread over
+    #    several role descriptors of the entity
     for kind in KINDS:
         role = "idpsso" if kind in SP_RECEIVES else "spsso"
         e_id, m_id, u_id = ids_for(kind)
         shapes = [
             [{"kind": role, "keys": [{"use": "signing", "certs": None}, kd("signing", "idp_sign"), kd("encryption", "idp_enc")]}],
+            [{"kind": role, "keys": [{"use": "signing", "certs": [None]}, kd("signing", None, "idp_sign")]}],
+            [{"kind": role, "keys": [{"use": None, "certs": None}]}],
             [{"kind": role, "keys": [kd(None, "idp_sign")]}, {"kind": "attribute_authority", "keys": [{"use": None, "certs": None}]}],
             [{"kind": role, "keys": [{"use": "encryption", "certs": None}, kd("signing", "idp_sign")]}],
             [{"kind": role, "keys": [kd("encryption", "idp_enc")]}],
@@ -351,7 +360,7 @@ def gen_cases(rng, tier):
             md = {"configured": True, "entities": [{"id": e_id, "roles": roles}]}
             for only in (True, False, None):
                 for signer in ("idp_sign", "idp_sign2", "idp_enc", "attacker"):
-                    for ki in ({"certs": [], "rsa": None}, {"certs": [signer], "rsa": None}):
+                    for ki in ({"certs": [], "rsa": None}, {"certs": [signer], "rsa": None}, {"certs": ["member2", signer], "rsa": None}):
                         yield {"kind": kind, "md": md, "only_md": only, "issuer": e_id, "signer": signer, "keyinfo": ki}
     # 5. random metadata shapes
     n_md, per = (40, 12) if tier == "quick" else (400, 20)
@@ -575,10 +584,10 @@ def nontrivial(case, impl, lean):
 
 
 def finding_key(case, impl, lean):
-    """C03/keyless-keydescriptor-fallback: only_use_keys_in_metadata switched off, the issuer's metadata DOES
-    publish a signing certificate, but one of its applicable KeyDescriptors has no X509Data: MetaData.certs raises
-    KeyError, _check_signature takes that for "no keys" and falls back to the embedded certificate."""
-    if lean.get("why") == "fallback-although-metadata-has-keys" and lean.get("keyerror") is True \
+    """C03/keyless-keydescriptor-fallback (repaired by fix 57adca09, listed as `fixed`): option off, the issuer's
+    metadata DOES publish a signing certificate, one of its signing key descriptors carries no certificate, and
+    the embedded certificate was trusted.  Named only for exactly that input class."""
+    if lean.get("why") == "fallback-although-metadata-has-keys" and lean.get("keyless") is True \
             and case["only_md"] is False and impl["accepted"]:
         return "C03/keyless-keydescriptor-fallback"
     return None
